@@ -119,7 +119,7 @@ func scenarioSched(c *vrun.Ctx) {
 				r := last
 				c.Outcome(p.Name + ":" + r.digest())
 				if has("counters") {
-					if prob := r.end.countersProblem(r.h.file != nil, false); prob != "" {
+					if prob := r.end.countersProblem(r.h.file != nil, true); prob != "" {
 						c.Violation("C12/"+p.Name+"/"+classify(prob), prob+" after "+r.history(), x)
 					}
 				}
